@@ -93,6 +93,17 @@ func installNatives(it *Interp) {
 		}}}
 	}
 	installSetNatives(it)
+	n["slices.Clone"] = func(it *Interp, args []Value) []Value {
+		s, _ := args[0].(*SliceV)
+		if s == nil {
+			return []Value{Nil{}}
+		}
+		out := &SliceV{elems: []Value{}}
+		for _, e := range s.elems {
+			out.elems = append(out.elems, it.copyStruct(e))
+		}
+		return []Value{out}
+	}
 	n["slices.Concat"] = func(it *Interp, args []Value) []Value {
 		out := &SliceV{elems: []Value{}}
 		for _, a := range args {
